@@ -68,6 +68,30 @@ def run_async(coro_fn):
     return quiet(lambda: asyncio.run(coro_fn()))
 
 
+def run_async_capture(coro_fn):
+    """Like run_async, but also returns what the call printed on standard output (where init / add-key print the key
+    when no key output file is given)."""
+    out = io.StringIO()
+    with contextlib.redirect_stdout(out), contextlib.redirect_stderr(io.StringIO()):
+        res = asyncio.run(coro_fn())
+    return res, out.getvalue()
+
+
+def last_json_object(text):
+    """The last top-level JSON object printed (a line starting with '{'): the key as a user would save it from stdout."""
+    dec, found, pos = json.JSONDecoder(), None, 0
+    lines = text.splitlines(keepends=True)
+    offsets = [sum(len(x) for x in lines[:i]) for i in range(len(lines))]
+    for off, line in zip(offsets, lines):
+        if line.startswith('{') and off >= pos:
+            try:
+                _, end = dec.raw_decode(text, off)
+            except ValueError:
+                continue
+            found, pos = text[off:end], end
+    return found
+
+
 def exc_name(e):
     return type(e).__name__
 
@@ -726,6 +750,62 @@ def long_password_probe(rep: Report, ctx):
                     break
 
 
+# --------------------------------------------------------------------------- several repositories, one cache directory
+def shared_cache_probe(rep: Report, ctx):
+    """The cache directory is per user, not per repository (the CLI default): several repositories initialised with
+    different accepted settings are used one after the other through ONE cache directory - each must unlock with its own
+    key, back up and restore - and every snapshot is cross-checked by a client without any cache (another machine)."""
+    aes = settings_of(cipher={'name': 'aes_gcm', 'key_bits': 256})
+    chacha = settings_of(cipher={'name': 'chacha20_poly1305'}, kdf={'name': 'blake2b'})
+    plain = settings_of(encrypted=False)
+    sha = settings_of(hashing={'name': 'sha2', 'bits': 256}, encrypted=False)
+    sha3 = settings_of(hashing={'name': 'sha3', 'bits': 224}, chunking={'min_length': 5, 'max_length': 8}, encrypted=False)
+    for oi, order in enumerate(([aes, chacha, plain, sha], [plain, aes, sha3], [sha, plain, chacha, aes])):
+        cache = ctx.scratch / f'cache{oi}'
+        repos = []
+        for settings in order:
+            be = MemBackend()
+            pw = None if settings['encryption'] is None else b'pw'
+            res = run_async(lambda: Repository(be, concurrent=2, cache_directory=cache).init(password=pw, settings=copy.deepcopy(settings)))
+            key = None if res.key is None else Repository(be, concurrent=1, cache_directory=None).serialize(res.key)
+            repos.append((be, key, pw, res.config))
+        for k, (be, key, pw, cfg) in enumerate(repos):
+            case = {'component': 'shared-cache', 'settings': order[:k + 1], 'position': k}
+            rep.case(case, nontrivial=k > 0)
+            rep.count('shared-cache:repositories')
+            src = small_tree(cfg, ctx.scratch, ctx.rng, f'sc{oi}_{k}')
+            want = tree_bytes(src)
+            name, problem = None, None
+            for client, cdir in (('the client sharing the cache directory', cache), ('a client without a cache', None)):
+                out = ctx.scratch / f'scout{oi}_{k}_{0 if cdir else 1}'
+                repo = Repository(be, concurrent=2, cache_directory=cdir)
+
+                async def go():
+                    await repo.unlock(password=pw, key=key)
+                    nm = name or (await repo.snapshot(paths=[src])).name
+                    await repo.restore(path=out, snapshot_regex=nm)
+                    await repo.close()
+                    return nm
+                try:
+                    name = run_async(go)
+                    got = tree_bytes(out / str(src.resolve()).lstrip('/')) if out.exists() else {}
+                    if got != want:
+                        problem = f'{client} restores other contents (missing {sorted(set(want) - set(got))})'
+                except BaseException as e:  # noqa
+                    if isinstance(e, (KeyboardInterrupt, SystemExit, MemoryError)):
+                        raise
+                    problem = f'{client}: {exc_name(e)}: {e}'[:200]
+                shutil.rmtree(out, ignore_errors=True)
+                if problem:
+                    break
+            shutil.rmtree(src, ignore_errors=True)
+            if problem:
+                rep.violations.append({'what': f'repository number {k + 1} of {len(repos)} (different accepted settings) used through one cache directory: {problem}',
+                                       'signature': {'kind': 'shared_cache', 'position': k}, 'replay': case})
+                break
+        shutil.rmtree(cache, ignore_errors=True)
+
+
 # --------------------------------------------------------------------------- chunk lengths near the limits of size_t
 OVERSIZE_SCRIPT = r'''
 import asyncio, contextlib, io, json, os, sys
@@ -952,9 +1032,15 @@ def all_chains(maxlen):
 
 def run_chain(cipher, ops, kdf_choice, same_pw, ctx, tag):
     """Execute the chain on the real code.  Returns (matrix, errors, private partition, usable problems, passwords)."""
-    be, res = make_repo(cipher, ctx.rng)
-    ser = lambda key: Repository(be, concurrent=1, cache_directory=None).serialize(key)  # noqa
-    keys, pws = [ser(res.key)], [b'owner']
+    # every key is taken from STANDARD OUTPUT, where init / add-key print it when no key output file is given (files:
+    # key_file_probe), and must be the key the call returns
+    be = MemBackend()
+    de = lambda text: Repository(be, concurrent=1, cache_directory=None).deserialize(text)  # noqa
+    res, printed = run_async_capture(lambda: Repository(be, concurrent=1, cache_directory=None).init(password=b'owner', settings=settings_of(cipher=cipher)))
+    keys, pws, stdout_differs = [last_json_object(printed)], [b'owner'], []
+    if keys[0] is None or de(keys[0]) != res.key:
+        stdout_differs.append(0)
+        keys[0] = keys[0] or Repository(be, concurrent=1, cache_directory=None).serialize(res.key)
     for i, op in enumerate(ops):
         kdf = CHAIN_KDFS[kdf_choice[i] % len(CHAIN_KDFS)]
         settings = {'encryption': {'kdf': copy.deepcopy(kdf)}}
@@ -966,8 +1052,11 @@ def run_chain(cipher, ops, kdf_choice, same_pw, ctx, tag):
                 return await repo.add_key(password=new_pw, settings=settings, shared=False)
             await repo.unlock(password=pws[op[1]], key=keys[op[1]])
             return await repo.add_key(password=pws[op[1]] if op[0] == 'clone' else new_pw, settings=settings, shared=True)
-        out = run_async(go)
-        keys.append(ser(out.new_key))
+        out, printed = run_async_capture(go)
+        keys.append(last_json_object(printed))
+        if keys[-1] is None or de(keys[-1]) != out.new_key:
+            stdout_differs.append(i + 1)
+            keys[-1] = keys[-1] or Repository(be, concurrent=1, cache_directory=None).serialize(out.new_key)
         pws.append(pws[op[1]] if op[0] == 'clone' else new_pw)
     n = len(keys)
     matrix, errors, privates = [], {}, []
@@ -1001,6 +1090,7 @@ def run_chain(cipher, ops, kdf_choice, same_pw, ctx, tag):
             if isinstance(e, (KeyboardInterrupt, SystemExit, MemoryError)):
                 raise
     partition = [privates.index(p) for p in privates]
+    problems += [(i, 'the key printed on standard output is not the key the call returned (or no key was printed)') for i in stdout_differs]
     return matrix, errors, partition, problems, pws, stranger
 
 
@@ -1145,6 +1235,7 @@ def run(ctx) -> Report:
     reinit_probe(rep, ctx, ctx.scale(4, 40))
     oversize_probe(rep, ctx)
     trailing_nul_probe(rep, ctx)
+    shared_cache_probe(rep, ctx)
     check_utils(rep, ctx, ctx.scale(60, 400))
     rep.notes.append('not exercised: the default user KDF (scrypt n=2**20, 1 GiB) - every encrypted case names cheap KDF parameters')
     return rep
@@ -1167,8 +1258,8 @@ def search(ctx, broken) -> Report:
 def replay(ctx, obj):
     rep = Report(rule=RULE)
     case = obj.get('replay') or {}
-    if case.get('component') in ('key-file', 'reinit', 'oversize', 'trailing-nul'):
-        {'key-file': key_file_probe, 'reinit': lambda r, c: reinit_probe(r, c, 10), 'oversize': oversize_probe,
+    if case.get('component') in ('key-file', 'reinit', 'oversize', 'trailing-nul', 'shared-cache'):
+        {'shared-cache': shared_cache_probe, 'key-file': key_file_probe, 'reinit': lambda r, c: reinit_probe(r, c, 10), 'oversize': oversize_probe,
          'trailing-nul': trailing_nul_probe}[case['component']](rep, ctx)
         for v in rep.violations:
             print('VIOLATION-REPRODUCED', v['what'])
